@@ -26,7 +26,7 @@ type pqwK1 struct {
 	lastW    *pq.Writer
 	chainIDs []uint64
 	oldTail  uint64 // tail page of the queue root before the call
-	ok       bool // the model is in step with the implementation
+	ok       bool   // the model is in step with the implementation
 	n        int
 }
 
